@@ -66,14 +66,19 @@ def command_line(r, tmp, data):
     q = r.random()
     if q < 0.25:
         desc.append('no-dialect')
-    elif q < 0.9:
+    elif q < 0.85:
         d = r.choice(bg.DIALECTS)
         opts += r.choice([['--dialect=' + d], ['-d', d], ['--dialect', d]])
-    elif q < 0.95:
+    elif q < 0.91:
         opts += ['--dialect=' + r.choice(['', 'bogus', '6502 ', 'arm', 'help', 'HELP', 'Z80\n'])]
         desc.append('bad-dialect')
     else:
-        opts += ['--dialect=ARM', '--dialect=Z80']
+        # the option given several times, --dialect=help before / after a real dialect
+        d1, d2 = r.choice(bg.DIALECTS), r.choice(bg.DIALECTS)
+        opts += r.choice([['--dialect=' + d1, '--dialect=' + d2], ['--dialect=' + d1, '--dialect=help'],
+                          ['--dialect=help', '--dialect=' + d1], ['--dialect=' + d1, '--dialect=help', '--dialect=' + d2],
+                          ['-d', d1, '-d', 'help']])
+        desc.append('repeated-dialect')
     q = r.random()
     if q < 0.3:
         pass
